@@ -172,27 +172,21 @@ def main():
     args = vlib.std_args()
     ck = Check("C10", args.tier, args.seed)
     ck.proofs("Props/C10.v", extra_trusted=[
-        "chain dictionaries come from the model `build` of C09 (coq/Dec/Tables.v) on the generated tables; "
-        "py/decgen.py renders the tables to text for the implementation",
+        "py/decgen.py renders the generated tables to .dec text; the model is handed that same text (coq/Dec/Pipeline.v: front-end model of C02, "
+        "model of parse(), `build` of C09, `expand`) — nothing is computed in Python for it",
         "hand-written model coq/Decay/ChainDict.v `expand` tied by correspondence; descriptor patterns: default"])
     cases = json.loads(Path(args.replay).read_text())["cases"] if args.replay else gen_cases(ck.rng, args.tier)
     impl = vlib.run_impl("c10.py", cases)
     flat, terms, fimpl = [], [], []
     import decpost
     for c, res in zip(cases, impl):
-        T = c09.coq_tables(c09.first_tables(c["stmts"]))
-        if c.get("post"):
-            # tables as parse() derives them (CDecay): the value model of parse() (coq/Dec/Post.v)
-            T = f"(match parse_post cc sc_of true {decpost.coq_stmts(c['stmts'])} with inl T0 => T0 | inr _ => [] end)"
-        al = clist([f"({cstr(k)}, {cstr(v)})" for k, v in c["aliases"].items()]) if c["aliases"] else "[]"
-        al = clist([f"({cstr(st[1])}, {cstr(st[2])})" for st in c["stmts"] if st[0] == "Alias"])
         for m, r in zip(c["mothers"], res):
             flat.append({"stmts": c["stmts"], "text": c["text"], "mothers": [m], "aliases": c["aliases"], "reparse": c.get("reparse"), "post": c.get("post")})
-            terms.append(f"match build 60 {T} [] {cstr(m)} with Some (Some c) => vstrs (expand default_cfg (pd_of_list {al}) true c) "
-                         f"| Some None => VErr \"DecayNotFound\" | None => VErr \"OutOfFuel\" end")
+            # the model reads the same TEXT the implementation reads (coq/Dec/Pipeline.v: front end, parse() incl. CDecay, build, expand)
+            terms.append(f"text_descriptors cc sc_of 60 {cstr(c['text'])} {cstr(m)}")
             fimpl.append(r)
-    model = vlib.run_model("C10", ["Lib.PyDict", "Fmt.DescFormat", "Decay.Conj", "Decay.GenTables", "Decay.ChainDict", "Dec.Tables", "Dec.Syntax", "Dec.Post"],
-                           "fun v : val => v", terms, shard=150,
+    model = vlib.run_model("C10", ["Lib.PyDict", "Fmt.DescFormat", "Decay.Conj", "Decay.GenTables", "Decay.ChainDict", "Dec.Tables", "Dec.Syntax", "Dec.Post", "Dec.Pipeline"],
+                           "fun v : val => v", terms, shard=100,
                            preamble="Definition sc_of (n : string) : option bool := pd_get n (t_selfconj gen_tables).")
     diffs = vlib.compare_veq(ck, flat, fimpl, model)
     sizes = [len(r) for r in fimpl if isinstance(r, list)]
